@@ -51,7 +51,12 @@ func fanOut(r *hx.Rng) []hx.Zs {
 	}
 	change := func() {
 		srv := servers[r.Intn(min(len(servers), 2))]
-		h = append(h, stack.OpSetData(srv.Ent, srv.Id, srv.Fns[r.Intn(len(srv.Fns))], int64(r.Range(1, 900))))
+		fn := srv.Fns[r.Intn(len(srv.Fns))]
+		h = append(h, stack.OpSetData(srv.Ent, srv.Id, fn, int64(r.Range(1, 900))))
+		if r.Chance(1, 4) { // back to an earlier value by way of another route of change
+			v := int64(4 * r.Range(1, 200))
+			h = append(h, stack.OpSetData(srv.Ent, srv.Id, fn, v), stack.OpSetData(srv.Ent, srv.Id, fn, v+int64(r.Range(1, 3))), stack.OpSetData(srv.Ent, srv.Id, fn, v))
+		}
 	}
 	change()
 	for k := 0; k < r.Range(2, 8); k++ {
@@ -232,6 +237,15 @@ func gen(r *hx.Rng, tier string, i int) []hx.Zs {
 				fn = lf.Fns[r.Intn(len(lf.Fns))]
 			}
 			h = append(h, stack.OpSetData(lf.Ent, lf.Id, fn, int64(r.Range(1, 900))))
+			if r.Chance(1, 4) {
+				// back to an earlier value: SetData(v), a change by another route (UpdateData forms for the
+				// functions that have them, else SetData of another value), SetData(v) again - every step is
+				// a change of the data and must be notified (seed C08-j remembered what SetData told last)
+				v := int64(4 * r.Range(1, 200))
+				h = append(h, stack.OpSetData(lf.Ent, lf.Id, fn, v))
+				h = append(h, stack.OpSetData(lf.Ent, lf.Id, fn, v+int64(r.Range(1, 3))))
+				h = append(h, stack.OpSetData(lf.Ent, lf.Id, fn, v))
+			}
 		case 3: // bind (so that some writes are accepted)
 			lf := pl.Local[r.Intn(len(pl.Local))]
 			h = append(h, stack.OpBindCall(p.Ski, next(p.Ski), r.Bool(), p.Addr(p.Feats[r.Intn(len(p.Feats))], true), lf.Addr(true), lf.Type+1))
